@@ -113,6 +113,8 @@ func (v *view) sig(prop, clause string) string {
 	return fmt.Sprintf("%s|%s|%s|%s", prop, v.r.Transport, kindNames[v.r.Kind], clause)
 }
 
+func (v *view) relevant(prop string) { v.s.stats.Probes[prop+"-relevant"]++ }
+
 func (v *view) fail(prop, clause string, f string, a ...any) {
 	text := fmt.Sprintf("rpc%d %s %s: ", v.r.ID, v.r.Transport, kindNames[v.r.Kind]) + fmt.Sprintf(f, a...)
 	v.s.viols = append(v.s.viols, Violation{Prop: prop, Sig: v.sig(prop, clause), RPC: v.r.ID, Text: text})
@@ -272,6 +274,9 @@ func trunc(s string, n int) string {
 // C01 ------------------------------------------------------------------------
 
 func (v *view) oracleC01() {
+	if countGot(v.hRecv)+countGot(v.cRecv) > 0 || (v.invoke != nil && v.invoke.GotMsg != nil) {
+		v.relevant("C01")
+	}
 	if v.r.Kind == KUnary {
 		// handler's decoded request
 		for _, rv := range v.hRecv {
@@ -483,6 +488,9 @@ func (v *view) oracleC02() {
 	if t == nil {
 		return
 	}
+	if v.hReturn != nil {
+		v.relevant("C02")
+	}
 	ok := okTerminal(t, v.single)
 	// a bare io.EOF from a unary call is never a legitimate outcome
 	if t.Op == "invoke" && t.Err.IsEOF() {
@@ -500,8 +508,11 @@ func (v *view) oracleC02() {
 			}
 		}
 		for _, sd := range v.hSend {
-			if sd.Msg != nil && sd.Msg.Kind == 4 && v.r.Transport != TInproc {
-				v.fail("C02", "success-with-unencodable-response", "client reports success although response tag %d cannot be encoded", sd.Msg.Tag)
+			// a response that cannot be encoded: either the handler's send
+			// told it so (then what the handler returns is its business), or
+			// the client must not see success
+			if sd.Msg != nil && sd.Msg.Kind == 4 && v.r.Transport != TInproc && sd.Err.IsNil() {
+				v.fail("C02", "success-with-unencodable-response", "client reports success although response tag %d cannot be encoded and the handler was not told", sd.Msg.Tag)
 			}
 		}
 	}
@@ -515,13 +526,7 @@ func (v *view) oracleC02() {
 	if v.single && (v.responsesProduced() != 1 || len(v.hSend) != 1) {
 		return // wrong number of responses: C08's business
 	}
-	if v.hReturn.Err.IsNil() && !v.single && v.responsesProduced() != len(v.hSend) {
-		// a response could not be handed over (e.g. unencodable): any error will do
-		if ok {
-			v.fail("C02", "success-with-lost-response", "client reports success although %d of the handler's %d sends failed", len(v.hSend)-v.responsesProduced(), len(v.hSend))
-		}
-		return
-	}
+
 	if v.clientSideFailure() {
 		return
 	}
@@ -593,7 +598,7 @@ func (v *view) expectedIncoming() metadata.MD {
 		// credentials hand back a map: the last value of a key wins
 		last := map[string]string{}
 		for _, kv := range v.r.Creds.MD {
-			last[kv.K] = kv.V
+			last[kv.K] = string(kv.V)
 		}
 		cm := metadata.MD{}
 		for k, val := range last {
@@ -671,6 +676,9 @@ func (v *view) oracleC03() {
 		return
 	}
 	expH, expT := v.expectedHeaders(), v.expectedTrailers()
+	if len(expH)+len(expT)+len(v.expectedIncoming()) > 0 {
+		v.relevant("C03")
+	}
 	t := v.terminal
 	okT := okTerminal(t, v.single)
 	// (iii) headers are observable once a response message has been received
@@ -787,7 +795,7 @@ func (v *view) oracleC04() {
 		if v.cutBefore(ev.RSeq) {
 			continue
 		}
-		v.s.stats.Probes["c04-op-returned-after-ctx-end"]++
+		v.relevant("C04")
 		allowed := []codes.Code{causeCode(v.rs.ctxCause)}
 		if v.rs.ctxDoneSeq2 != 0 && v.rs.ctxDoneSeq2 < ev.RSeq {
 			allowed = append(allowed, causeCode(v.rs.ctxCause2))
@@ -893,6 +901,9 @@ func errShape(e *ErrRec) string {
 // C05 ------------------------------------------------------------------------
 
 func (v *view) oracleC05() {
+	if v.hReturn != nil || v.ctxSeq != 0 {
+		v.relevant("C05")
+	}
 	if v.hReturn == nil {
 		return
 	}
@@ -920,7 +931,9 @@ func (v *view) oracleC05() {
 			if rv.RSeq == 0 || rv.Seq <= v.terminal.RSeq {
 				continue
 			}
-			if v.disturbedBefore(rv.RSeq) && !v.disturbedBefore(v.terminal.RSeq) {
+			if v.disturbedBefore(rv.RSeq) {
+				// a context that has ended may turn up as the outcome of any
+				// receive, before or after the real final status
 				continue
 			}
 			if rv.Err.String() != v.terminal.Err.String() {
@@ -937,6 +950,9 @@ func (v *view) oracleC06() {
 		return
 	}
 	for _, ev := range v.ev {
+		if ev.obj != nil {
+			v.relevant("C06")
+		}
 		if strings.HasPrefix(ev.Note, "ALIAS:") {
 			v.fail("C06", "shared-memory|"+string(ev.Side)+"-"+ev.Op, "%c.%s at seq %d: the received message shares memory with the sender's object: %s", ev.Side, ev.Op, ev.RSeq, ev.Note[6:])
 		}
@@ -953,6 +969,7 @@ func (v *view) oracleC08() {
 		return
 	}
 	t := v.terminal
+	v.relevant("C08")
 	produced := len(v.hSend) // attempts, in order
 	okN := v.responsesProduced()
 	if t.Err.IsNil() {
@@ -993,6 +1010,7 @@ func (v *view) oracleC10() {
 		return
 	}
 	f := v.hStart.Flags
+	v.relevant("C10")
 	if f["caller-values-visible"] != "" {
 		v.fail("C10", "caller-values-visible", "%s caller context value(s) are visible in the handler's context", f["caller-values-visible"])
 	}
